@@ -116,6 +116,15 @@ class CallGraph:
             t = self._resolve_static(f, fn)
             if isinstance(t, ClassInfo):
                 return [t]
+            if isinstance(fn, ast.Name) and not isinstance(t, FuncInfo) and fn.id not in f.params:
+                out = []
+                for v in self._locals(f).get(fn.id, []):
+                    for x in ([v.body, v.orelse] if isinstance(v, ast.IfExp) else [v]):
+                        c = self.P.resolve_name(f.module, U(x)) if isinstance(x, (ast.Name, ast.Attribute)) else None
+                        if isinstance(c, ClassInfo) and c not in out:
+                            out.append(c)
+                if out:
+                    return out
             if isinstance(t, FuncInfo):
                 # factory functions: look at return expressions
                 out = []
@@ -195,9 +204,29 @@ class CallGraph:
         return []
 
     # ------------------------------------------------------------------
+    def _kwargs(self, f, call):
+        """keywords of a call with `**name` expanded when name is bound once to dict(k=v, ..) or a {'k': v} display."""
+        out = []
+        for k in call.keywords:
+            if k.arg is not None:
+                out.append(k)
+                continue
+            v = k.value
+            if isinstance(v, ast.Name):
+                vals = self._locals(f).get(v.id, [])
+                v = vals[0] if len(vals) == 1 and v.id not in f.params else None
+            if isinstance(v, ast.Call) and U(v.func) == 'dict' and not v.args and all(x.arg is not None for x in v.keywords):
+                out.extend(v.keywords)
+            elif isinstance(v, ast.Dict) and all(isinstance(x, ast.Constant) and isinstance(x.value, str) for x in v.keys):
+                out.extend(ast.keyword(arg=x.value, value=y) for x, y in zip(v.keys, v.values))
+            else:
+                out.append(k)
+        return out
+
     def resolve(self, f, call):
         """-> list[Edge] for one Call node located in function f."""
         fn = call.func
+        kws = self._kwargs(f, call)
         edges = []
         txt = U(fn)
         last = txt.split('.')[-1]
@@ -234,7 +263,7 @@ class CallGraph:
                             m = nxt.methods[fn.attr]
                             if m not in seen:
                                 seen.append(m)
-                                edges.append(Edge(f, call, m, 'direct', bind(call.args, call.keywords, m, True)))
+                                edges.append(Edge(f, call, m, 'direct', bind(call.args, kws, m, True)))
                             break
             if edges:
                 return edges
@@ -246,17 +275,46 @@ class CallGraph:
         if isinstance(t, ClassInfo):
             init = t.find_method('__init__')
             if init is not None:
-                return [Edge(f, call, init, 'ctor', bind(call.args, call.keywords, init, True))]
+                return [Edge(f, call, init, 'ctor', bind(call.args, kws, init, True))]
             return [Edge(f, call, None, 'ctor', {}, ext=t.qualname)]
         if isinstance(t, FuncInfo):
-            return [Edge(f, call, t, 'direct', bind(call.args, call.keywords, t, False))]
+            return [Edge(f, call, t, 'direct', bind(call.args, kws, t, False))]
         if isinstance(t, tuple) and t[0] == 'ext' and isinstance(fn, ast.Attribute):
             return [Edge(f, call, None, 'ext', {}, ext=t[1])]
 
         if isinstance(fn, ast.Name):
+            # a local bound to one of several classes: cls = A if c else B; cls(..)
+            cls_vals = []
+            for v in self._locals(f).get(fn.id, []):
+                for x in ([v.body, v.orelse] if isinstance(v, ast.IfExp) else [v]):
+                    if isinstance(x, (ast.Name, ast.Attribute)):
+                        c = self.P.resolve_name(f.module, U(x))
+                        if isinstance(c, ClassInfo) and c not in cls_vals:
+                            cls_vals.append(c)
+                        elif not isinstance(c, ClassInfo):
+                            cls_vals = None
+                            break
+                    else:
+                        cls_vals = None
+                        break
+                if cls_vals is None:
+                    break
+            if cls_vals and fn.id not in f.params:
+                out_e = []
+                for c in cls_vals:
+                    init = c.find_method('__init__')
+                    if init is not None:
+                        out_e.append(Edge(f, call, init, 'ctor', bind(call.args, kws, init, True)))
+                if out_e:
+                    # the same constructor inherited by every candidate: one edge
+                    uniq = []
+                    for e_ in out_e:
+                        if not any(e_.target is u.target for u in uniq):
+                            uniq.append(e_)
+                    return uniq
             fs = self.funcs_of_expr(f, fn)
             if fs:
-                return [Edge(f, call, m, 'funcattr', bind(call.args, call.keywords, m, skip)) for (m, skip) in fs]
+                return [Edge(f, call, m, 'funcattr', bind(call.args, kws, m, skip)) for (m, skip) in fs]
             if isinstance(t, tuple) and t[0] == 'ext':
                 return [Edge(f, call, None, 'ext', {}, ext=t[1])]
             return [Edge(f, call, None, 'ext', {}, ext=fn.id)]
@@ -265,20 +323,20 @@ class CallGraph:
             fs = self.funcs_of_expr(f, fn)
             if fs:
                 return [Edge(f, call, m, 'direct' if m.cls else 'funcattr',
-                             bind(call.args, call.keywords, m, skip)) for (m, skip) in fs]
+                             bind(call.args, kws, m, skip)) for (m, skip) in fs]
             recv_classes = self.classes_of_expr(f, fn.value)
             if not recv_classes and fn.attr not in GENERIC_METHODS:
                 cands = self._by_name.get(fn.attr, [])
                 # unique by hierarchy: keep the most-derived definitions
                 if cands:
-                    return [Edge(f, call, m, 'byname', bind(call.args, call.keywords, m, m.is_method))
+                    return [Edge(f, call, m, 'byname', bind(call.args, kws, m, m.is_method))
                             for m in cands]
             return [Edge(f, call, None, 'ext', {}, ext=txt)]
         # call of a call result etc.
         if isinstance(fn, ast.Call):
             fs = self.funcs_of_expr(f, fn)
             if fs:
-                return [Edge(f, call, m, 'funcattr', bind(call.args, call.keywords, m, skip)) for (m, skip) in fs]
+                return [Edge(f, call, m, 'funcattr', bind(call.args, kws, m, skip)) for (m, skip) in fs]
         return [Edge(f, call, None, 'ext', {}, ext=txt)]
 
     def _scan(self, f):
